@@ -196,13 +196,18 @@ def is_multi(f):
     return f['max'] is None or f['max'] > 1
 
 
+def wname(f):
+    """the local name of a member on the wire"""
+    return f.get('sub_name') or f['name']
+
+
 def flat_fields(desc, cid):
     c = desc['classes'][cid]
     base = flat_fields(desc, c['parent']) if c['parent'] is not None else []
     return base + c['fields']
 
 
-def gen_universe(rng, n_classes=5, max_fields=4, tns='urn:t', namespaces=('urn:t', 'urn:u', 'urn:v'), model_only=True,
+def gen_universe(rng, n_classes=5, max_fields=4, tns='urn:t', namespaces=('urn:t', 'urn:u', 'urn:v'), model_only=True, allow_sub_ns=False,
                  shared_names=('id', 'name', 'value')):
     """classes with inheritance, XmlAttribute members, wrapped arrays, max_occurs > 1 members, customised
     primitives, simpleContent classes (one XmlData member + attributes), member names shared between classes"""
@@ -257,7 +262,22 @@ def gen_universe(rng, n_classes=5, max_fields=4, tns='urn:t', namespaces=('urn:t
                 mx = rng.choice([None, 2, 3])
                 if mn == 1 and rng.random() < 0.3:
                     mn = 2 if mx != 2 else 1
-            fields.append({'name': name, 'ty': ty, 'min': mn, 'max': mx, 'nillable': nil, 'kind': kind})
+            f = {'name': name, 'ty': ty, 'min': mn, 'max': mx, 'nillable': nil, 'kind': kind}
+            # another name / namespace on the wire (Attributes.sub_name, sub_ns): read back through _type_info_alt
+            if rng.random() < 0.18 and (kind == 'elem' or allow_sub_ns):
+                # (the XSD emitter honours sub_name for elements only: attributes get one only where no schema is involved)
+                f['sub_name'] = 'w%d_%d' % (i, j)
+            if allow_sub_ns and kind == 'elem' and rng.random() < 0.12:
+                # only where no published schema is involved: the XSD emitter ignores sub_ns (known finding)
+                f['sub_ns'] = rng.choice(['urn:w', 'urn:t'])
+            fields.append(f)
+        if force:
+            # the crossing chain also carries renamed members: declared in the base, read through the subclass
+            pf = [g for g in classes[parent]['fields'] if g['kind'] == 'elem']
+            if pf and not any(g.get('sub_name') for g in classes[parent]['fields']):
+                pf[0]['sub_name'] = 'w%d_b' % parent
+                if allow_sub_ns and rng.random() < 0.5:
+                    pf[0]['sub_ns'] = 'urn:w'
         classes.append({'ns': ns, 'name': 'K%d' % i, 'parent': parent, 'fields': fields})
     # a shared name must stay unique in every flattened class
     desc = {'tns': tns, 'classes': classes}
@@ -463,6 +483,10 @@ def member_type(f, ty_of):
         kw['nillable'] = False
     if f['max'] != 1:
         kw['max_occurs'] = 'unbounded' if f['max'] is None else f['max']
+    if f.get('sub_name'):
+        kw['sub_name'] = f['sub_name']
+    if f.get('sub_ns'):
+        kw['sub_ns'] = f['sub_ns']
     if kw:
         t = t.customize(**kw)
     if f['kind'] == 'attr':
@@ -698,8 +722,9 @@ G_KIND = {'elem': 'KElem', 'attr': 'KAttr', 'data': 'KData'}
 
 
 def g_field(f, T):
-    return '(mkfield %s %s %s %s %s %s)' % (gtext(f['name']), g_ty(f['ty'], T), gz(f['min']), gopt(f['max'], gz),
-                                            gbool(f['nillable']), G_KIND[f['kind']])
+    return '(mkfield %s %s %s %s %s %s %s %s)' % (gtext(f['name']), g_ty(f['ty'], T), gz(f['min']), gopt(f['max'], gz),
+                                                  gbool(f['nillable']), G_KIND[f['kind']],
+                                                  gopt(f.get('sub_name'), gtext), gopt(f.get('sub_ns'), gtext))
 
 
 def g_universe(desc, classes):
@@ -1084,23 +1109,23 @@ def declaring(desc, cid):
 
 def ref_encode_members(desc, classes, cid, e, vals, rng, tns, fields=None, ns_of=None, type_of=None):
     for (dcid, f), x in zip(fields if fields is not None else declaring(desc, cid), vals):
-        fns = ns_of(dcid) if ns_of else desc['classes'][dcid]['ns']
+        fns = f.get('sub_ns') or (ns_of(dcid) if ns_of else desc['classes'][dcid]['ns'])   # the schema qualifies the member so
         T = type_of(dcid, f) if type_of else classes[dcid]._type_info[f['name']]
         if f['kind'] == 'attr':
             if x[0] != 'none':
-                e.set(f['name'], ref_leaf_text(x, rng))
+                e.set(wname(f), ref_leaf_text(x, rng))
         elif f['kind'] == 'data':
             if x[0] != 'none':
                 e.text = ref_leaf_text(x, rng)
         elif is_multi(f):
             if x[0] == 'list':
                 for y in x[1]:
-                    e.append(ref_encode(desc, classes, f['ty'], T, fns, f['name'], y, rng, tns))
+                    e.append(ref_encode(desc, classes, f['ty'], T, fns, wname(f), y, rng, tns))
         else:
             if x[0] == 'none':
                 if f['min'] <= 0 and (not f['nillable'] or not nil_ok(desc, f['ty']) or rng.random() < 0.6):
                     continue                                   # absent optional element
-            e.append(ref_encode(desc, classes, f['ty'], T, fns, f['name'], x, rng, tns))
+            e.append(ref_encode(desc, classes, f['ty'], T, fns, wname(f), x, rng, tns))
 
 
 def is_nil(e):
@@ -1140,15 +1165,15 @@ def ref_decode_members(desc, classes, cid, e, tns, fields=None, ns_of=None, type
     vals = []
     used_atts = set()
     for dcid, f in (fields if fields is not None else declaring(desc, cid)):
-        fns = ns_of(dcid) if ns_of else desc['classes'][dcid]['ns']
+        fns = f.get('sub_ns') or (ns_of(dcid) if ns_of else desc['classes'][dcid]['ns'])
         T = type_of(dcid, f) if type_of else classes[dcid]._type_info[f['name']]
         if f['kind'] == 'attr':
-            if f['name'] in e.attrib:
-                used_atts.add(f['name'])
-                vals.append(ref_parse_leaf(f['ty'][1], e.attrib[f['name']]))
+            if wname(f) in e.attrib:
+                used_atts.add(wname(f))
+                vals.append(ref_parse_leaf(f['ty'][1], e.attrib[wname(f)]))
             else:
                 if f['min'] > 0:
-                    raise DecodeError('required attribute %s missing' % f['name'])
+                    raise DecodeError('required attribute %s missing' % wname(f))
                 vals.append(('none',))
         elif f['kind'] == 'data':
             if kids:
@@ -1156,11 +1181,11 @@ def ref_decode_members(desc, classes, cid, e, tns, fields=None, ns_of=None, type
             vals.append(ref_parse_leaf(f['ty'][1], e.text))
         else:
             items = []
-            while pos < len(kids) and kids[pos].tag == _q(fns, f['name']):
+            while pos < len(kids) and kids[pos].tag == _q(fns, wname(f)):
                 items.append(ref_decode(desc, classes, f['ty'], T, kids[pos], tns, f['nillable']))
                 pos += 1
             if len(items) < f['min']:
-                raise DecodeError('%d occurrences of %s, minOccurs=%d' % (len(items), f['name'], f['min']))
+                raise DecodeError('%d occurrences of %s, minOccurs=%d' % (len(items), _q(fns, wname(f)), f['min']))
             if f['max'] is not None and len(items) > f['max']:
                 raise DecodeError('%d occurrences of %s, maxOccurs=%d' % (len(items), f['name'], f['max']))
             if is_multi(f):
